@@ -149,6 +149,8 @@ type reqCase struct {
 	Form    string `json:"form"`     // "origin" | "absolute"
 	Note    string `json:"note,omitempty"`
 	Variant string `json:"variant,omitempty"` // spec variant (variants.go); "" = the real document
+	// sequence stream (sequences.go): auxiliary requests served by the same server instance before
+	Before []seqStep `json:"before,omitempty"`
 }
 
 func (c reqCase) path() []byte { b, _ := hex.DecodeString(c.PathHex); return b }
@@ -867,7 +869,7 @@ func main() {
 	run := vh.Start("Verif.Corr.C18", 250)
 	defer run.Finish()
 	run.SetPreamble("From Verif Require Import Model.HttpGuard.") // mk_op, rokind in variant cases
-	run.Rule = "requests = method x path spelling (canonical paths of every operation of oapi.yaml under hand-enumerated spellings x all methods first, then PRNG: template instantiation with valid/invalid parameter values, mount-prefix variants, 0-3 spelling mutations, query strings, absolute-form targets); each is served on four stacks (full router and validator-less router, write operations disabled and enabled), twice each; then spec variants (the real document plus added operations whose concrete path is also matched by a template of the other read-only classification, or by two templates) x plain paths x a few methods, each repeated 16 times on the validator-less and 8 times on the full stack over 4 freshly built instances; non-trivial = the request got past the root router to the guard on the validator-less stack; distinct by (method, path bytes)"
+	run.Rule = "requests = method x path spelling (canonical paths of every operation of oapi.yaml under hand-enumerated spellings x all methods first, then PRNG: template instantiation with valid/invalid parameter values, mount-prefix variants, 0-3 spelling mutations, query strings, absolute-form targets); each is served on four stacks (full router and validator-less router, write operations disabled and enabled), twice each; then spec variants (the real document plus added operations whose concrete path is also matched by a template of the other read-only classification, or by two templates) x plain paths x a few methods, each repeated 16 times on the validator-less and 8 times on the full stack over 4 freshly built instances; then one long request sequence on ONE server instance per mode: the guarded probes again after each of 24 auxiliary requests (/api.json, swagger ui, /metrics, unknown paths, HEAD/OPTIONS/POST on them), each auxiliary request 3 times, a probe must get the fresh instance's answer at every position; non-trivial = the request got past the root router to the guard on the validator-less stack; distinct by (method, path bytes)"
 
 	// chi's request logger prints every request; keep the middleware, drop the output
 	middleware.DefaultLogger = middleware.RequestLogger(&middleware.DefaultLogFormatter{Logger: log.New(io.Discard, "", 0), NoColor: true})
@@ -905,12 +907,16 @@ func main() {
 			return
 		}
 		var canon *yamlOp
-		if c.Kind == "canonical" {
+		if c.Kind == "canonical" || (c.Kind == "sequence" && c.Note != "") {
 			for i := range ops {
 				if p, ok := canonicalPath(ops[i]); ok && p == string(c.path()) && ops[i].Method == c.Method {
 					canon = &ops[i]
 				}
 			}
+		}
+		if c.Kind == "sequence" || c.Kind == "sequence-aux" {
+			w.replaySequence(pool, c, canon)
+			return
 		}
 		w.runAll([]job{{c, canon}}, pool)
 		return
@@ -955,4 +961,6 @@ func main() {
 	w.runAll(jobs, pool)
 	// 5. spec variants: the guard's lookup order (exact path before templates, map order)
 	w.runVariants(pool)
+	// 6. request sequences on one server instance per mode (auxiliary routes between the probes)
+	w.runSequences(pool)
 }
